@@ -94,7 +94,8 @@ def strat():
                             text=draw(st.sampled_from([None, "T"]))))
         return dict(regions=out, sorter=draw(st.sampled_from(["smart", "naive"])), use_float=use_float,
                     param=draw(st.sampled_from([0.1, 0.0, 0.05, 0.3, 0.5])), denom=draw(st.sampled_from([10, 1, 3, 50])),
-                    width=draw(st.sampled_from([3000, 100, 1000])), twice=draw(st.booleans()), int_lines=draw(st.booleans()))
+                    width=draw(st.sampled_from([3000, 100, 1000])), twice=draw(st.booleans()), int_lines=draw(st.booleans()),
+                    line_ids=draw(st.sampled_from(["page", "page", "region", "none"])))
     return page()
 
 
@@ -114,7 +115,9 @@ def build(case):
             else:
                 bl = np.asarray(l["baseline"], dtype=np.float64)
                 pg = np.asarray(l["polygon"], dtype=np.float64)
-            reg.lines.append(TextLine(id="l%d" % n, baseline=bl, polygon=pg, heights=[20, 8], transcription=l["text"]))
+            id_mode = case.get("line_ids", "page")
+            lid = "l%d" % n if id_mode == "page" else (None if id_mode == "none" else "l%d" % len(reg.lines))
+            reg.lines.append(TextLine(id=lid, baseline=bl, polygon=pg, heights=[20, 8], transcription=l["text"]))
             n += 1
         pl.regions.append(reg)
     return pl
